@@ -344,13 +344,30 @@ pub fn gen_pipeline(r: &mut Rng, id: usize, prop: &str, p: &PipeOpts, universe: 
     if r.chance(10) {
         c.spec.ooa = true;
     }
-    c.sources.push(stdin_src(bytes));
+    // the same records on standard input or as 1..3 input files (cut between records): the pipeline, its end-of-input
+    // handling and Break propagation must not depend on where the records come from
+    let as_files = r.chance(22);
+    if as_files {
+        let k = r.range(1, 3).min(rows.len().max(1));
+        let mut cut: Vec<usize> = (0..k - 1).map(|_| r.below(rows.len() + 1)).collect();
+        cut.sort();
+        cut.push(rows.len());
+        let mut prev = 0;
+        for (i, e) in cut.iter().enumerate() {
+            let (b, _) = stream_of(r, &rows[prev..*e], false);
+            c.sources.push(Source { name: Some(format!("in{i}.json")), bytes: b });
+            prev = *e;
+        }
+    } else {
+        c.sources.push(stdin_src(bytes));
+    }
     let stages = active_stages(&c.spec);
     let mut g = Group::new(vec![c]);
     g.values = rows;
     g.nontrivial = stages >= 2 && n >= 2;
     g.labels.push(format!("stages:{stages}"));
     g.labels.push(format!("rows:{}", bucket(n)));
+    g.labels.push(format!("input:{}", if as_files { "files" } else { "stdin" }));
     g
 }
 
